@@ -8,7 +8,7 @@ use serde_json::json;
 
 pub struct C04;
 
-#[derive(Clone)]
+#[derive(Clone, PartialEq)]
 enum Atom
 {
 	Label(&'static str),
@@ -43,6 +43,10 @@ fn atoms_large() -> Vec<Atom>
 	}
 	v.push(Atom::Nop);
 	v.push(Atom::Goto("return"));
+	// `return:` anywhere but at the end of a value-returning function is an
+	// ordinary label (the first generation does not reserve the word)
+	v.push(Atom::Label("return"));
+	v.push(Atom::IfGoto("return"));
 	// a label that exists, but only in another function of the module
 	v.push(Atom::Goto("elsewhere"));
 	v.push(Atom::IfGoto("elsewhere"));
@@ -311,6 +315,46 @@ impl Stream for Exhaustive
 	}
 }
 
+/// `return:` is an ordinary label only as the last statement of a nested
+/// block of a function without a return value (elsewhere the parser takes it
+/// for the return statement): every other occurrence becomes a `nop();`
+fn fix_return_labels(seq: &mut Vec<Node>, atoms: &[Atom], nested: bool, has_return: bool)
+{
+	let nop = atoms.iter().position(|a| *a == Atom::Nop).unwrap_or(0);
+	let n = seq.len();
+	for (i, node) in seq.iter_mut().enumerate()
+	{
+		match node
+		{
+			Node::Atom(k) =>
+			{
+				if atoms[*k] == Atom::Label("return") && !(nested && !has_return && i + 1 == n)
+				{
+					*k = nop;
+				}
+			}
+			Node::Block(inner) => fix_return_labels(inner, atoms, true, has_return),
+			Node::If(b) =>
+			{
+				if let Node::Block(inner) = b.as_mut()
+				{
+					fix_return_labels(inner, atoms, true, has_return);
+				}
+			}
+			Node::IfElse(a, b) =>
+			{
+				for x in [a, b]
+				{
+					if let Node::Block(inner) = x.as_mut()
+					{
+						fix_return_labels(inner, atoms, true, has_return);
+					}
+				}
+			}
+		}
+	}
+}
+
 /// the source of one random body (also compiled to IR by C02)
 pub fn random_source(c: &mut Choices) -> String
 {
@@ -321,7 +365,8 @@ pub fn random_source(c: &mut Choices) -> String
 	};
 	let mut budget = 40;
 	let has_return = c.flag();
-	let body = treegen::random_seq(c, g, &mut budget, 5, 12);
+	let mut body = treegen::random_seq(c, g, &mut budget, 5, 12);
+	fix_return_labels(&mut body, &atoms, false, has_return);
 	render(&body, &atoms, has_return)
 }
 
@@ -354,7 +399,8 @@ impl Stream for RandomBodies
 		};
 		let mut budget = 40;
 		let has_return = c.flag();
-		let body = treegen::random_seq(c, g, &mut budget, 5, 12);
+		let mut body = treegen::random_seq(c, g, &mut budget, 5, 12);
+		fix_return_labels(&mut body, &atoms, false, has_return);
 		judge(&body, &atoms, has_return, ctx, &mut out);
 		out.class(format!("depth:{}", treegen::depth(&body).min(6)));
 		out
